@@ -141,6 +141,8 @@ class Run:
         return cond
 
     def floor(self, rule, count, minimum, what):
+        if self.findings:
+            return  # counts are distorted once a violation cut an analysis short; the violation is the verdict
         if count < minimum:
             raise AnalysisError(rule, f"instance count {count} under the floor {minimum} ({what})")
 
